@@ -8,7 +8,7 @@ from vlib.ctx import proof_gate
 from vlib.term import C, opt
 
 MAPPINGS = ("map", "ordered", "proxy", "userdict", "chainmap")     # argument classes with keys(): dict(pairs) semantics
-ITERABLES = ("pairs", "gen", "tuple")                                # iterables of pairs, in order
+ITERABLES = ("pairs", "gen", "tuple", "iterpairs", "listpairs")                                # iterables of pairs, in order
 
 HEADER = ("From Coq Require Import ZArith List.\n"
           "From TV Require Import Common.Harness Common.LMap C06.Model C06.Law C06.Corr.")
@@ -312,7 +312,7 @@ def grid(ctx, stride, offset):
     pair_lists = [[], [[1, 10]], [[1, 12]], [[3, 12]], [[101, 12]], [[1, 12], [101, 10]], [[3, 10], [103, 12]],
                   [[3, 10], [3, 12]], [[2, 12], [200, 10]], [[3, 200], [1, 12]], [[1, 10], [2, 11]], [[103, 110], [1, 12], [3, 10]]]
     for ps in pair_lists:
-        for kind in ("map", "pairs", "proxy", "userdict", "chainmap", "ordered", "gen"):
+        for kind in ("map", "pairs", "proxy", "userdict", "chainmap", "ordered", "gen", "iterpairs"):
             ops += [["Update", kind, ps], ["Ior", kind, ps]]
         ops += [["Ctor", "map", ps]]
     cs, i = [], 0
